@@ -76,13 +76,17 @@ impl NamedTempFile {
 /// std::io::BufWriter<&mut std::fs::File> (library/std/src/io/buffered/bufwriter.rs): a sink;
 /// `write` may be SHORT (for `buf.len() >= capacity` it is one `write(2)` on the file, which the
 /// kernel caps at 0x7ffff000 bytes on Linux) and may fail with `Interrupted`.
-impl<'a> BufWriter<&'a mut StdFile> {
+/// (R15: named `StdBufWriter` here; `BufWriter` in prelude/files_fs.rs is tokio's.)
+#[verifier::external_body]
+#[verifier::reject_recursive_types(W)]
+pub struct StdBufWriter<W> { _w: core::marker::PhantomData<W> }
+impl<'a> StdBufWriter<&'a mut StdFile> {
     #[verifier::external_body]
-    pub fn new(inner: &'a mut StdFile) -> (r: BufWriter<&'a mut StdFile>)
+    pub fn new(inner: &'a mut StdFile) -> (r: StdBufWriter<&'a mut StdFile>)
         ensures r.accepted() == Seq::<u8>::empty(),
     { unimplemented!() }
 }
-impl<'a> Write for BufWriter<&'a mut StdFile> {
+impl<'a> Write for StdBufWriter<&'a mut StdFile> {
     uninterp spec fn accepted(&self) -> Seq<u8>;
     open spec fn observed(&self) -> Seq<u8> { self.accepted() }
     #[verifier::external_body]
@@ -113,5 +117,5 @@ impl Connection {
     { unimplemented!() }
 }
 
-/// R12: `$p.to_owned()` for `$p: &Path` (std `Path::to_owned` = `to_path_buf`) is `PathBuf::from($p)`
-/// (prelude/files_fs.rs); `$s.to_owned()` for `$s: &str` is `str_to_string` (archive_zip.rs).
+// R12: `$p.to_owned()` for `$p: &Path` (std `Path::to_owned` = `to_path_buf`) is `PathBuf::from($p)`
+// (prelude/files_fs.rs); `$s.to_owned()` for `$s: &str` is `str_to_string` (archive_zip.rs).
